@@ -149,6 +149,25 @@ type tagDummy struct {
 	Sort    string        `json:"sort,omitempty"    xml:"sort,omitempty"`
 }
 
+// constructField creates the field of the given type. The field constructors
+// validate their (normally static) spec by panicking; a spec imported from
+// JSON is input, so an invalid one is reported as an error instead.
+func constructField(fieldType string, spec *field.Spec, index string) (f field.Field, err error) {
+	constructor := FieldConstructor[fieldType]
+	if constructor == nil {
+		return nil, fmt.Errorf("no constructor for filed type: %s for field: %s", fieldType, index)
+	}
+
+	defer func() {
+		if r := recover(); r != nil {
+			f = nil
+			err = fmt.Errorf("invalid spec for field: %s: %v", index, r)
+		}
+	}()
+
+	return constructor(spec), nil
+}
+
 func importField(dummyField *fieldDummy, index string) (*field.Spec, error) {
 	fieldSpec := &field.Spec{
 		Length:      dummyField.Length,
@@ -178,11 +197,11 @@ func importField(dummyField *fieldDummy, index string) (*field.Spec, error) {
 			if err != nil {
 				return nil, err
 			}
-			constructor := FieldConstructor[dummyField.Type]
-			if constructor == nil {
-				return nil, fmt.Errorf("no constructor for filed type: %s for field: %s", dummyField.Type, index)
+			subfield, err := constructField(dummyField.Type, subfieldSpec, index)
+			if err != nil {
+				return nil, err
 			}
-			fieldSpec.Subfields[key] = constructor(subfieldSpec)
+			fieldSpec.Subfields[key] = subfield
 		}
 
 		if dummyField.Tag != nil {
@@ -202,6 +221,10 @@ func importField(dummyField *fieldDummy, index string) (*field.Spec, error) {
 			bitmapSpec, err := importField(dummyField.Bitmap, "field bitmap")
 			if err != nil {
 				return nil, err
+			}
+
+			if bitmapSpec.Length < 0 {
+				return nil, fmt.Errorf("negative bitmap length: %d for field: %s", bitmapSpec.Length, index)
 			}
 
 			fieldSpec.Bitmap = field.NewBitmap(bitmapSpec)
@@ -237,15 +260,11 @@ func (builder *messageSpecBuilder) ImportJSON(raw []byte) (*iso8583.MessageSpec,
 		if err != nil {
 			return nil, fmt.Errorf("error importing field: %d. %w", index, err)
 		}
-		constructor := FieldConstructor[dummyField.Type]
-		if constructor == nil {
-			return nil, fmt.Errorf(
-				"no constructor for filed type: %s for field: %d",
-				dummyField.Type,
-				index,
-			)
+		messageField, err := constructField(dummyField.Type, fieldSpec, key)
+		if err != nil {
+			return nil, err
 		}
-		spec.Fields[index] = constructor(fieldSpec)
+		spec.Fields[index] = messageField
 	}
 
 	return &spec, nil
